@@ -4,17 +4,15 @@ import json, os
 ROOT = os.path.dirname(os.path.dirname(os.path.abspath(__file__)))
 ALL = ['C%02d' % i for i in range(1, 21)]
 
-CHECKS = {
- 'C05': dict(
-    text='Coq theorems over an executable Gallina model of ircmsgs.py (tag escaping, tag dict, string branch of IrcMsg.__init__, __str__): '
-         'tag-value round trip for all strings, parse(serialize m) = m for all well-formed m, parsing total on the stated domain with the '
-         'refuting witness for the rest; the model is tied to the source by a regenerated escape table / except-clause list and by a '
-         'differential run (exhaustive short hostile lines + generated messages) against the real IrcMsg on every check.',
-    note='Trusted: Coq kernel, gen_tables.py, ExtrOcamlBasic extraction + OCaml driver, the Python harness; datetime.strptime is a Section '
-         'variable (any function); Python code is modelled not verified.',
-    technique='Coq proof (induction over strings/token lists) + regenerated tables + extracted-model differential correspondence',
-    ref='5/C05'),
-}
+import glob, importlib, sys
+sys.path.insert(0, os.path.join(ROOT, 'harness'))
+CHECKS = {}
+for f in sorted(glob.glob(os.path.join(ROOT, 'harness', 'c[0-9][0-9].py'))):
+    pid = 'C' + os.path.basename(f)[1:3]
+    mod = importlib.import_module(os.path.basename(f)[:-3])
+    if not getattr(mod, 'CLAIMED', True):
+        continue
+    CHECKS[pid] = dict(text=mod.LEVEL_TEXT, note=mod.LEVEL_NOTE, technique=mod.TECHNIQUE, ref='5/' + pid)
 
 NOT_YET = 'check not built yet in this session (planned, see DESIGN.md section 5)'
 
